@@ -89,7 +89,7 @@ pub fn start_watchdog(limit_s: u64, prop: String, tier: String) {
     // the whole run: a quick tier takes a minute, a thorough tier an hour or two; under a change that makes
     // single executions pathologically slow (every motion check a few million queries up to the callback cap)
     // the exploration would otherwise grind on for hours
-    let total_limit_s: u64 = std::env::var("MC_TOTAL_SECS").ok().and_then(|s| s.parse().ok()).unwrap_or(if tier == "quick" { 1200 } else { 6 * 3600 });
+    let total_limit_s: u64 = std::env::var("MC_TOTAL_SECS").ok().and_then(|s| s.parse().ok()).unwrap_or(if tier == "quick" { 2400 } else { 6 * 3600 });
     std::thread::spawn(move || loop {
         std::thread::sleep(std::time::Duration::from_millis(250));
         let now = now_ms();
